@@ -55,10 +55,21 @@ impl Handler for JSXBooleanValueHandler {
                   .previous_token_fast(ctx.program())
                   .map(|t| t.end())
                   .unwrap_or(token.start());
+                // If the next attribute follows without white space,
+                // removing the value must not glue the two names together.
+                let glued = ctx
+                  .text_info()
+                  .text_str()
+                  .get(
+                    expr.end().as_byte_index(ctx.text_info().range().start)..,
+                  )
+                  .and_then(|rest| rest.chars().next())
+                  .map(|c| !c.is_whitespace() && !matches!(c, '/' | '>' | '{'))
+                  .unwrap_or(false);
                 fixes.push(LintFix {
                   description: FIX_DESC.into(),
                   changes: vec![LintFixChange {
-                    new_text: "".into(),
+                    new_text: if glued { " ".into() } else { "".into() },
                     range: SourceRange::new(start_pos, expr.end()),
                   }],
                 });
